@@ -2,6 +2,7 @@ package props
 
 import (
 	"bytes"
+	"compress/gzip"
 	"context"
 	"encoding/json"
 	"errors"
@@ -508,6 +509,63 @@ func C05(r *h.Run) {
 	}
 	c05UnaryVectors(r, rng.Fork("unary-vectors"))
 	c05SentinelError(r)
+	c05RequestVectors(r, rng.Fork("request-vectors"))
+}
+
+// c05RequestVectors: conformant client-streaming REQUESTS as a peer writes them (binary
+// protobuf, where a zero-valued message is a zero-length frame; optionally each frame
+// compressed) are decoded by a real handler to the values the peer encoded.
+func c05RequestVectors(r *h.Run, rng *h.Rng) {
+	for i := 0; i < r.N(36, 300); i++ {
+		proto_ := []string{"connect", "grpc", "grpcweb"}[i%3]
+		gz := i%4 == 3
+		n := 1 + rng.Intn(5)
+		var vals []int64
+		var body []byte
+		for k := 0; k < n; k++ {
+			v := int64(0)
+			if rng.Intn(2) == 0 {
+				v = int64(1 + rng.Intn(1000))
+			}
+			vals = append(vals, v)
+			enc, _ := proto_Marshal(&wrapperspb.Int64Value{Value: v})
+			if gz && len(enc) > 0 {
+				var zb bytes.Buffer
+				zw := gzip.NewWriter(&zb)
+				_, _ = zw.Write(enc)
+				_ = zw.Close()
+				body = append(body, h.Frame(1, zb.Bytes())...)
+			} else {
+				body = append(body, h.Frame(0, enc)...)
+			}
+		}
+		var got []int64
+		handler := connect.NewClientStreamHandler("/verif.Svc/Sum", func(_ context.Context, s *connect.ClientStream[wrapperspb.Int64Value]) (*connect.Response[wrapperspb.Int64Value], error) {
+			for s.Receive() {
+				got = append(got, s.Msg().GetValue())
+			}
+			return connect.NewResponse(&wrapperspb.Int64Value{}), s.Err()
+		})
+		ct := map[string]string{"connect": "application/connect+proto", "grpc": "application/grpc", "grpcweb": "application/grpc-web+proto"}[proto_]
+		req := httptest.NewRequest(http.MethodPost, "/verif.Svc/Sum", bytes.NewReader(body))
+		req.ProtoMajor, req.ProtoMinor = 2, 0
+		req.Header.Set("Content-Type", ct)
+		if gz {
+			req.Header.Set(map[bool]string{true: "Connect-Content-Encoding", false: "Grpc-Encoding"}[proto_ == "connect"], "gzip")
+		}
+		rec := httptest.NewRecorder()
+		p := safely(func() { handler.ServeHTTP(rec, req) })
+		in := map[string]any{"proto": proto_, "kind": "client", "codec": "proto", "gzip": gz, "values_encoded_by_the_peer": vals, "body_hex": h.Hex(body)}
+		r.Eval("request_vector", fmt.Sprint(proto_, gz, vals))
+		if p != nil {
+			r.Fail(h.Failure{Key: "conformance/panic", Family: "request_vector", What: fmt.Sprint("panic: ", p), Input: in})
+			continue
+		}
+		r.Sample("request_vector", map[string]any{"in": in, "handler_decoded": got})
+		if fmt.Sprint(got) != fmt.Sprint(vals) {
+			r.Fail(h.Failure{Key: "conformance/peer-messages", Family: "request_vector", What: "a conformant request is not decoded to the messages the peer encoded (a zero-valued message is a zero-length frame)", Input: in, Expected: vals, Actual: got})
+		}
+	}
 }
 
 // c05SentinelError: one *connect.Error VALUE (a package-level sentinel, possibly wrapped) ends
